@@ -2002,6 +2002,7 @@ pub fn run(args: &Args) {
 	quiet_panics();
 	let mut out = Out::new(&args.out);
 	out.rule = "scenario = sparse tile set (levels 0..31, border coordinates, payload = own source coordinate, 3 stored compressions) × source coverage (exact / generous / extra level) × 4 flag pairs × requested selection (none / `versatiles convert` options: zoom limits, geographic box [cutting tiles, on tile borders, points, antimeridian, poles, far away, invalid], border / arbitrary pyramid incl. empty encodings) × target (memory, versatiles, pmtiles, tar, mbtiles, directory); per scenario: option handling, advertised coverage, lookups at T(t)/wrongly-ordered image/neighbours, streams over T(cover) levels and empty boxes, full conversion re-opened; non-trivial = a flag is set (or a selection given) and the result is non-empty".into();
+	out.notes.push("checklist: 1 thresholds - 256-block border clusters, levels 0/1/30/31, zoom arguments 31/32/40/255 (u8), border 2^31, level loops 0..=31 via full pyramids; 2 faults after open - fault_case (undecodable payload / mislabelled compression + transcode: fail loudly or deliver everything); 3 payload classes - reuse_and_payload_cases (1 byte, duplicates below/above the 1000-byte de-dup threshold, 40 KB, unique; empty payloads: known finding of C04); 4 option interplay - binary_cases: min/max zoom x bbox x border x flip x swap x compress x force-recompress x override-input-compression x source format x target format through the real CLI vs the library call with the same parameters, malformed --bbox strings; library scenarios add force-recompress; 5 reuse - conversion onto an existing output of every target, container onto itself, every reader built fresh and re-opened; 6 scheduling - n.a. here (streams compared as sets; C14 owns the operators); 7 HTTP - serve-vs-convert uses plain GETs on every tile source (header variants are C05); 8 extreme coordinates - edge_sweep (zoom 0/1/2/30/31 x geo boxes exactly at +-180/+-85.0511 x clamped borders; corner tiles with requested boxes touching 0 and 2^z-1), empty boxes in all encodings; 9 independent encoders - PMTiles runs / padded versatiles blocks as conversion sources; 10 two paths - lookup vs stream vs advertised coverage (unrestricted and restricted), advertised pyramid vs delivered tiles vs coverage written to the output header, binary vs library, serve vs convert".into());
 	let rt = tokio::runtime::Builder::new_multi_thread().worker_threads(4).enable_all().build().unwrap();
 	let dir = args.out.join("c06files");
 	std::fs::create_dir_all(&dir).unwrap();
